@@ -691,9 +691,12 @@ impl Serialize for Cmap12<'_> {
             }
         }
 
-        s.embed(start_char_code)?;
-        s.embed(end_char_code)?;
-        s.embed(glyph_id.to_u32())?;
+        // nothing retained: no group at all (not a group of INVALID_UNICODE_CHAR)
+        if start_char_code != INVALID_UNICODE_CHAR {
+            s.embed(start_char_code)?;
+            s.embed(end_char_code)?;
+            s.embed(glyph_id.to_u32())?;
+        }
 
         // update length
         s.check_assign::<u32>(
